@@ -51,6 +51,17 @@ spec fn wired(w0: PagedWriter, w1: PagedWriter, img: Seq<u8>, mask: Option<Seq<u
     }
 }
 
+/// transitivity of `appended` for every pair of consecutive writes (so that the proofs below need not name the intermediate writer state)
+proof fn lemma_appended_trans_all()
+    ensures forall|a: PagedWriter, b: PagedWriter, c: PagedWriter, x: Seq<u8>, y: Seq<u8>|
+        #[trigger] appended(a, b, x) && #[trigger] appended(b, c, y) && a.cursor() >= 0 ==> appended(a, c, x + y)
+{
+    assert forall|a: PagedWriter, b: PagedWriter, c: PagedWriter, x: Seq<u8>, y: Seq<u8>|
+        #[trigger] appended(a, b, x) && #[trigger] appended(b, c, y) && a.cursor() >= 0 implies appended(a, c, x + y) by {
+        lemma_appended_trans(a, b, c, x, y);
+    }
+}
+
 impl<'a> ImageWriter<'a> {
 //@fn src/image_writer.rs ImageWriter add_visual_reference serves=C06,C16 ret=r
 //@rw image: &mut dyn Read ==> image: &mut Source
@@ -67,15 +78,7 @@ impl<'a> ImageWriter<'a> {
             r is Ok ==> final(self).image.projection == old(self).image.projection && final(self).images@ == old(self).images@,
             /*[C16]*/ r is Ok ==> final(self).writer.wf() && final(self).writer.no_new_fault(&*old(self).writer) && final(self).writer.cursor() % 4 == 0,
 //@body_start
-        let ghost w0 = *self.writer;
-        let ghost img = image.remaining();
-        let ghost mk: Option<Seq<u8>> = if mask is Some { Some((*mask->Some_0).remaining()) } else { None };
-        proof { lemma_cursor_bound(w0); }
-//@call write 0 after
-        let ghost w1 = *self.writer;
-        proof { assert(appended(w0, w1, blob_section(img))); }
-//@tail
-        proof { if mk is Some { lemma_appended_trans(w0, w1, *self.writer, blob_section(img), blob_section(mk->Some_0)); } }
+        proof { lemma_cursor_bound(*self.writer); lemma_appended_trans_all(); }
 //@endfn
 
 //@fn src/image_writer.rs ImageWriter add_pinhole serves=C06,C16 ret=r
@@ -95,15 +98,7 @@ impl<'a> ImageWriter<'a> {
             r is Ok ==> final(self).image.visual_reference == old(self).image.visual_reference && final(self).images@ == old(self).images@,
             /*[C16]*/ r is Ok ==> final(self).writer.wf() && final(self).writer.no_new_fault(&*old(self).writer) && final(self).writer.cursor() % 4 == 0,
 //@body_start
-        let ghost w0 = *self.writer;
-        let ghost img = image.remaining();
-        let ghost mk: Option<Seq<u8>> = if mask is Some { Some((*mask->Some_0).remaining()) } else { None };
-        proof { lemma_cursor_bound(w0); }
-//@call write 0 after
-        let ghost w1 = *self.writer;
-        proof { assert(appended(w0, w1, blob_section(img))); }
-//@tail
-        proof { if mk is Some { lemma_appended_trans(w0, w1, *self.writer, blob_section(img), blob_section(mk->Some_0)); } }
+        proof { lemma_cursor_bound(*self.writer); lemma_appended_trans_all(); }
 //@endfn
 
 //@fn src/image_writer.rs ImageWriter add_spherical serves=C06,C16 ret=r
@@ -123,15 +118,7 @@ impl<'a> ImageWriter<'a> {
             r is Ok ==> final(self).image.visual_reference == old(self).image.visual_reference && final(self).images@ == old(self).images@,
             /*[C16]*/ r is Ok ==> final(self).writer.wf() && final(self).writer.no_new_fault(&*old(self).writer) && final(self).writer.cursor() % 4 == 0,
 //@body_start
-        let ghost w0 = *self.writer;
-        let ghost img = image.remaining();
-        let ghost mk: Option<Seq<u8>> = if mask is Some { Some((*mask->Some_0).remaining()) } else { None };
-        proof { lemma_cursor_bound(w0); }
-//@call write 0 after
-        let ghost w1 = *self.writer;
-        proof { assert(appended(w0, w1, blob_section(img))); }
-//@tail
-        proof { if mk is Some { lemma_appended_trans(w0, w1, *self.writer, blob_section(img), blob_section(mk->Some_0)); } }
+        proof { lemma_cursor_bound(*self.writer); lemma_appended_trans_all(); }
 //@endfn
 
 //@fn src/image_writer.rs ImageWriter add_cylindrical serves=C06,C16 ret=r
@@ -151,15 +138,7 @@ impl<'a> ImageWriter<'a> {
             r is Ok ==> final(self).image.visual_reference == old(self).image.visual_reference && final(self).images@ == old(self).images@,
             /*[C16]*/ r is Ok ==> final(self).writer.wf() && final(self).writer.no_new_fault(&*old(self).writer) && final(self).writer.cursor() % 4 == 0,
 //@body_start
-        let ghost w0 = *self.writer;
-        let ghost img = image_data.remaining();
-        let ghost mk: Option<Seq<u8>> = if mask_data is Some { Some((*mask_data->Some_0).remaining()) } else { None };
-        proof { lemma_cursor_bound(w0); }
-//@call write 0 after
-        let ghost w1 = *self.writer;
-        proof { assert(appended(w0, w1, blob_section(img))); }
-//@tail
-        proof { if mk is Some { lemma_appended_trans(w0, w1, *self.writer, blob_section(img), blob_section(mk->Some_0)); } }
+        proof { lemma_cursor_bound(*self.writer); lemma_appended_trans_all(); }
 //@endfn
 
 //@fn src/image_writer.rs ImageWriter finalize serves=C06 ret=r
